@@ -31,7 +31,13 @@ checks.update({
  "C17": dict(engine="cluster", text="For every explored history ending in delivered reports: every position x single-field mutation x {in flight, at rest}; the report must carry ErrChecksumMismatch, and blame in-flight corruption only when the node was handed different bytes.", ref="4/C17", note=cl_note),
  "C18": dict(engine="twin+sched", text="Middleware vs twin store over all operation sequences to the depth bound (pass-through equivalence, checkpoint metadata, foreign Extensions refused, drop/skip accounting) and all schedules up to the preemption bound with a blocked ReportFn (StoreLogs never blocked; delivered + dropped = checkpoints; SkippedRange names the gap).", ref="4/C18", note=cl_note + " " + sched_note),
 })
+checks.update({
+ "C09": dict(engine="format", text="Independent encoder/decoder (README only) reproduces every segment file byte for byte after every step of every sequence to the depth bound and decodes it back to the model; metadata record checked for the documented JSON shape; golden directories written by the pinned version open with identical contents and stay independently decodable after the current tree appends to them.", ref="4/C09, 3.7", note="Trusted base: verif/fmtspec (independent format implementation), the golden fixtures (written by the pinned commit with tools/goldengen), bbolt for reading the fixture metadata, the reference model."),
+ "C10": dict(engine="fault", text="Every I/O step of short workloads fails in turn (three flavours, transient and persistent), the workload continues (retry, append, stable write), faults are cleared and the WAL is reopened; acknowledged entries must be intact in process and after reopen, failed appends invisible, failed calls all-or-nothing after reopen.", ref="4/C10, 3.2", note=crash_note),
+})
 technique = {
+ "format": "bounded-exhaustive operation sequences with an independent reimplementation of the on-disk format as oracle, plus golden fixtures",
+ "fault": "exhaustive fault-position enumeration on the real code against a set-valued reference model",
  "cluster": "explicit-state breadth-first search over cluster histories with transitions executed on the real verifier middleware",
  "twin+sched": "bounded-exhaustive operation sequences against a twin store plus preemption-bounded exhaustive schedule exploration",
  "enum": "bounded-exhaustive enumeration of the stated input/configuration product on the real code against a reference",
@@ -51,6 +57,8 @@ m = {
   {"name": "crash", "path": "harness/core/crash.go", "serves_properties": ["C01", "C02", "C03", "C04", "C08", "C13"], "kind_free_text": "explicit-state search over durable disk images with exhaustive crash-image enumeration"},
   {"name": "seq", "path": "harness/core/seq.go", "serves_properties": ["C05", "C08", "C13", "C20"], "kind_free_text": "bounded-exhaustive operation sequences vs reference model, simulated and real stacks"},
   {"name": "enum", "path": "harness/worker/codec.go, harness/worker/migrate.go", "serves_properties": ["C12", "C15", "C19"], "kind_free_text": "exhaustive product enumeration of boundary menus"},
+  {"name": "format", "path": "harness/worker/format.go, fmtspec/", "serves_properties": ["C09"], "kind_free_text": "independent format implementation + golden fixtures"},
+  {"name": "fault", "path": "harness/core/fault.go", "serves_properties": ["C10"], "kind_free_text": "exhaustive I/O fault position enumeration"},
   {"name": "cluster", "path": "harness/core/vcluster.go, harness/core/vtwin.go", "serves_properties": ["C16", "C17", "C18"], "kind_free_text": "BFS over verifier cluster histories; twin-store sequences; blocked-ReportFn schedules"},
   {"name": "sched", "path": "harness/core/sched.go", "serves_properties": ["C06", "C14"], "kind_free_text": "cooperative scheduler + preemption-bounded DFS over rewritten sources"},
  ],
